@@ -1467,7 +1467,7 @@ def balance_stoichiometry(
         products = sorted(products)
     subst_keys = list(reactants) + list(products)
 
-    cks = Substance.composition_keys(substances.values())
+    cks = Substance.composition_keys(substances[sk] for sk in subst_keys)
 
     if parametric_symbols is None:
         parametric_symbols = numbered_symbols("x", start=1, integer=True, positive=True)
